@@ -71,7 +71,7 @@ func (u *unitCtx) ctor(idx int, exts []int, typeParam string) {
 	n := rapid.IntRange(0, 3).Draw(t, "ctorParams")
 	ptext, pvars := u.params(n, exts, typeParam)
 	mod := rapid.SampledFrom([]string{"public ", "", "protected ", "private "}).Draw(t, "ctorMod")
-	w.S(u.indent + mod)
+	w.S(u.lead() + mod)
 	ft := FuncTruth{Name: u.sig.name, IsCtor: true, DeclLine: w.Line(), NameLine: w.Line(), NameCol: w.Col()}
 	if mod != "" {
 		ft.Modifiers = []string{strings.TrimSpace(mod)}
@@ -85,9 +85,16 @@ func (u *unitCtx) ctor(idx int, exts []int, typeParam string) {
 	u.block(1, true)
 	w.S(u.indent + "}")
 	ft.EndLine = w.Line()
-	w.S("\n")
 	u.truth.Funcs = append(u.truth.Funcs, ft)
 	u.cur = nil
+}
+
+// lead is what precedes a member: the indentation, or one blank in the compact layout.
+func (u *unitCtx) lead() string {
+	if u.sameLine {
+		return " "
+	}
+	return u.indent
 }
 
 var modPerms = [][]string{
@@ -108,13 +115,12 @@ func (u *unitCtx) method(ms methodSig, exts []int, typeParam string) {
 			u.used["List"] = true
 		}
 		mod := rapid.SampledFrom([]string{"", "public "}).Draw(t, "ifaceMod")
-		w.S(u.indent + mod)
+		w.S(u.lead() + mod)
 		ft.DeclLine = w.Line()
 		w.S(ms.ret + " ")
 		ft.NameLine, ft.NameCol = w.Line(), w.Col()
 		w.S(ms.name + "(" + ptext + ");")
 		ft.EndLine = w.Line()
-		w.S("\n")
 		if mod != "" {
 			ft.Modifiers = []string{"public"}
 		}
@@ -138,10 +144,10 @@ func (u *unitCtx) method(ms methodSig, exts []int, typeParam string) {
 		}
 	}
 	ft.Modifiers = mods
-	if !abstract && rapid.IntRange(0, 7).Draw(t, "overrideAnn") == 0 {
+	if !abstract && !u.sameLine && rapid.IntRange(0, 7).Draw(t, "overrideAnn") == 0 {
 		w.S(u.indent + "@Override\n")
 	}
-	w.S(u.indent)
+	w.S(u.lead())
 	for _, m := range mods {
 		w.S(m + " ")
 	}
@@ -167,7 +173,6 @@ func (u *unitCtx) method(ms methodSig, exts []int, typeParam string) {
 	if abstract {
 		w.S(";")
 		ft.EndLine = w.Line()
-		w.S("\n")
 		u.truth.Funcs = append(u.truth.Funcs, ft)
 		return
 	}
@@ -181,7 +186,6 @@ func (u *unitCtx) method(ms methodSig, exts []int, typeParam string) {
 	u.blockWithReturn(1, ret)
 	w.S(u.indent + "}")
 	ft.EndLine = w.Line()
-	w.S("\n")
 	u.truth.Funcs = append(u.truth.Funcs, ft)
 	u.cur = nil
 }
